@@ -487,6 +487,21 @@ func (f *Frame) callResolved(in ssa.Instruction, cc *ssa.CallCommon, fnv SV, arg
 				}
 			}
 		}
+		if rc := f.x.root; rc != nil && rc.contract != nil && f == rc {
+			// atcall clauses also apply to interface method calls (p0 = receiver, p1.. = arguments)
+			for _, cl := range rc.contract.CallSpecs["@"+cc.Method.Name()] {
+				e := rc.specEnv(st, rc.entrySt, nil)
+				e.vars["p0"] = specVar{sv: recv, typ: cc.Value.Type()}
+				sg := cc.Signature()
+				for i, a := range args {
+					if i < sg.Params().Len() {
+						e.vars[fmt.Sprintf("p%d", i+1)] = specVar{sv: a, typ: sg.Params().At(i).Type()}
+					}
+				}
+				e.prove = true
+				c.oblige("atcall", cl.Tags, g, e.boolClause(cl), f.where(in), "at call of "+cc.Method.Name()+": "+cl.Text)
+			}
+		}
 		c.oblige("nilinvoke", f.sweepTags(), g, fmt.Sprintf("(not (= (i.tid %s) 0))", recv.T), f.where(in), "method call on nil interface value ("+cc.Method.Name()+")")
 		key := ifaceMethodKey(cc)
 		if ct := f.x.S.Contracts[key]; ct != nil {
@@ -880,7 +895,15 @@ func (f *Frame) applyContract0(in ssa.Instruction, ct *Contract, fn *ssa.Functio
 						es := strings.TrimSuffix(strings.TrimPrefix(inner, "(Array Int "), ")")
 						cellT := c.heapCellT[t.heap]
 						var nv string
-						if n, ok := isNum(c.simplify("(- " + t.hi + " " + t.lo + ")")); ok && n <= 128 {
+						wn, wok := isNum(c.simplify("(- " + t.hi + " " + t.lo + ")"))
+						if !wok {
+							if lb, lk, _ := splitIdx(t.lo); true {
+								if hb, hk, _ := splitIdx(t.hi); hb == lb {
+									wn, wok = hk-lk, true
+								}
+							}
+						}
+						if n, ok := wn, wok; ok && n >= 0 && n <= 128 {
 							nv = cur
 							for k := int64(0); k < n; k++ {
 								ev := c.freshConst("asge", es)
